@@ -116,7 +116,35 @@ fn extract(chunks: &[&[u8]]) -> (Runs, SgrState) {
     (out, fin)
 }
 
+/// A copy of the extractor (Clone / clone_from into a used one) taken between two calls carries the style in effect and
+/// any sequence in progress: it treats the rest of the input exactly like the original.
+fn check_clone(data: &[u8]) -> Result<(), (String, String)> {
+    if data.len() < 2 {
+        return Ok(());
+    }
+    for cut in [data.len() / 2, data.len() / 3 + 1, data.len() - 1] {
+        let (a, b) = data.split_at(cut.min(data.len() - 1).max(1));
+        let mut orig = WinconBytes::new();
+        for _ in orig.extract_next(a) {}
+        let mut copy = orig.clone();
+        let mut used = WinconBytes::new();
+        for _ in used.extract_next(b"\x1b[1;4;35;46mused\x1b[38;5") {}
+        used.clone_from(&orig);
+        let want: Vec<(anstyle::Style, String)> = orig.extract_next(b).collect();
+        let got1: Vec<(anstyle::Style, String)> = copy.extract_next(b).collect();
+        let got2: Vec<(anstyle::Style, String)> = used.extract_next(b).collect();
+        if got1 != want || got2 != want {
+            return Err(("c07:clone".into(), format!("a copy of the extractor taken after {} bytes (clone / clone_from) yields {:?} / {:?} for the rest, the original {:?}", a.len(), got1, got2, want)));
+        }
+        if copy != orig || used != orig {
+            return Err(("c07:clone".into(), format!("a copy of the extractor taken after {} bytes and fed the same bytes does not compare equal to the original", a.len())));
+        }
+    }
+    Ok(())
+}
+
 pub fn check_text(data: &[u8], cuts: &[usize], st: Option<&mut Stats>) -> Result<(), (String, String)> {
+    check_clone(data)?;
     let first = check_text_reading(data, cuts, st, false);
     if first.is_err() {
         // `4:n` with a style the type cannot express may change nothing or be read as plain underline: a disagreement
@@ -255,6 +283,15 @@ pub fn run(cfg: &Cfg) -> Stats {
                         }
                     }
                 }
+            }
+            // every C0 control and DEL as text between two sequences and inside a sequence (only TAB, LF, FF, CR are text)
+            for c in (0u8..0x20).chain(std::iter::once(0x7f)) {
+                if c == 0x1b || c == 0x18 || c == 0x1a {
+                    continue;
+                }
+                let ch = c as char;
+                eval(format!("\x1b[32ma{ch}b\x1b[1m{ch}\x1b[0mc").as_bytes(), &[], &mut st, true, "c0-control");
+                eval(format!("a\x1b[3{ch}1mb").as_bytes(), &[], &mut st, true, "c0-control");
             }
             // ... and a sequence that is cut off by the line break and never finished before the next one starts
             for tail in ["\x1b[31\n\x1b[32mtext", "\x1b[3\n\x1b[1mtext", "\x1b]0;ti\ntle\x07text", "\x1b[38;5\n\x1b[4mtext"] {
